@@ -11,8 +11,8 @@ import (
 )
 
 var verifHarnesses = map[string]func(){
-	"VerifC20ChannelID": VerifC20ChannelID,
-	"VerifC20Monitor":   VerifC20Monitor,
+	"VerifC20ChannelID":   VerifC20ChannelID,
+	"VerifC20Monitor":     VerifC20Monitor,
 	"VerifC20ConnectRace": VerifC20ConnectRace,
 }
 
@@ -21,7 +21,7 @@ type recEmitter struct {
 }
 
 func (e *recEmitter) Emit(p *iface.EventPubSubPayload) error { e.got = append(e.got, p); return nil }
-func (e *recEmitter) Close() error                         { return nil }
+func (e *recEmitter) Close() error                           { return nil }
 
 // VerifC20ChannelID: both ends of a pairwise channel derive the same channel
 // name, and different pairs derive different names (peer ids: symbolic strings).
